@@ -194,6 +194,7 @@ type scen struct {
 	bfd      int        // BFD messages sent by a BFD sender thread on interface 2
 	early    bool       // shutdown may race with the traffic (otherwise it starts after quiescence + leak check)
 	nosib    bool       // no sibling router: 3 connections, so the processor / slow-path queues hold only 3*batch packets
+	shared   bool       // sibling links are detached links sharing the internal socket (UDPCanReuseLocal() == false): the receive loop demultiplexes by source address
 }
 
 func scenariosC14() []scen {
@@ -214,6 +215,10 @@ func scenariosC14() []scen {
 				scen{name: "slow-declines", batch: b, nosib: true, ext3: [][]string{{"scmperr"}, {"badmac"}, {"scmperr"}}, early: early},
 				scen{name: "stun-burst", batch: b, nosib: true, internal: [][]string{{"stun"}, {"stun"}, {"stun"}, {"stun"}, {"stun"}}, ext3: [][]string{{"fwd"}}, early: early},
 				scen{name: "bfd-burst", batch: b, nosib: true, ext3: [][]string{{"fwd"}}, bfd: 3, early: early},
+				// sibling links without a socket of their own: packets from the sibling arrive on the internal socket
+				scen{name: "shared:tosib+fromsib", batch: b, shared: true, ext3: [][]string{{"tosib"}}, sib: [][]string{{"fromsib"}}, bfd: 1, early: early},
+				scen{name: "shared:fromsib+host+stun", batch: b, shared: true, internal: [][]string{{"host"}}, sib: [][]string{{"fromsib"}, {"stun", "fromsib"}}, early: early},
+				scen{name: "shared:2fromsib+slow", batch: b, shared: true, ext3: [][]string{{"badmac"}}, sib: [][]string{{"fromsib", "fromsib"}}, early: early},
 				scen{name: "4garbage+host-burst", batch: b, nosib: true, ext3: [][]string{{"garbage"}, {"garbage"}, {"badmac"}, {"fwd"}}, internal: [][]string{{"stun"}, {"host"}, {"stun"}}, early: early},
 			)
 		}
@@ -288,6 +293,7 @@ func runC14(sc scen, choose vsched.Chooser, fault func() int) outcome {
 		Ifs: []rtr.IfCfg{{ID: 3, LT: topology.Child, Nbr: rtr.NbrIA(3)}, {ID: 2, LT: topology.Parent, Nbr: rtr.NbrIA(2)},
 			{ID: 12, LT: topology.Parent, Nbr: rtr.NbrIA(12), Owner: 1}, {ID: 13, LT: topology.Child, Nbr: rtr.NbrIA(13), Owner: 1}}}
 	kinds := packetKinds(&cfg)
+	cfg.ReuseLocal = !sc.shared
 	if sc.nosib {
 		cfg.Ifs = cfg.Ifs[:2]
 	}
@@ -318,7 +324,10 @@ func runC14(sc scen, choose vsched.Chooser, fault func() int) outcome {
 	}
 	script("ext3", sc.ext3)
 	script("internal", sc.internal)
-	if !sc.nosib {
+	switch {
+	case sc.shared:
+		script("internal", sc.sib) // same socket, told apart by the source address
+	case !sc.nosib:
 		script("sib", sc.sib)
 	}
 	ctx := &vctx{done: make(chan struct{})}
@@ -410,7 +419,7 @@ func isReceiver(s *vsched.Sched, id int) bool {
 func TestC14(t *testing.T) {
 	r := mc.NewRun(t, "C14", mc.ModelChecking)
 	r.Rule = "scenario = batch size x packet script (<=3 packets of kinds forwardable/slow-path/garbage/to-sibling/from-sibling/" +
-		"from-host/STUN on 3 links) x BFD sender x shutdown racing or after quiescence; for each: all schedules of the real " +
+		"from-host/STUN on 3 links) x sibling link with its own socket or sharing the internal socket (demultiplexed by source address) x BFD sender x shutdown racing or after quiescence; for each: all schedules of the real " +
 		"Run pipeline (receivers, processor, slow path, internal-link processor, senders, BFD sender, shutdown) with at most " +
 		"D deviations from the default deterministic scheduler; a deviation is a preemption, a non-default successor when the " +
 		"running thread blocks, a non-default ready select case, or a write fault (partial / failed WriteBatch)"
